@@ -1,6 +1,7 @@
 /- Driver ops: JOSE encodings, challenge proofs (C15, C05, C04, C16). -/
 import Drv.Common
 import AcmedVerif.Model.Jose
+import AcmedVerif.Spec.C15
 open Lean AcmedVerif
 
 namespace Drv
@@ -104,8 +105,33 @@ def opSigSplit (j : Json) : Json :=
                 ("reencodes", decide (re = some bytes)), ("len", (bytes.length : Nat))]
   | none => Json.mkObj [("ok", false), ("len", (bytes.length : Nat))]
 
+/-- Judge C15 on what the implementation produced: `jwk` / `thumb` are the observed strings,
+`members` the octets the harness decoded from the observed JWK's base64url members, `raw` the key
+components extracted independently with OpenSSL. -/
+def opC15Judge (j : Json) : Json :=
+  let raw := get j "raw"
+  let mem := get j "members"
+  let jwk := (str j "jwk").toList
+  let thumb := (str j "thumb").toList
+  let ok : Bool :=
+    match str raw "kind" with
+    | "rsa" =>
+      Spec.C15.holdsRsa (Bytes.toNat (unhex (str raw "n_hex"))) (Bytes.toNat (unhex (str raw "e_hex")))
+        (unhex (str mem "n")) (unhex (str mem "e")) jwk thumb
+    | "ec" =>
+      let (crv, alg, w) := match str raw "curve" with
+        | "P-256" => ("P-256", "ES256", 32)
+        | "P-384" => ("P-384", "ES384", 48)
+        | "P-521" => ("P-521", "ES512", 66)
+        | _ => ("?", "?", 0)
+      Spec.C15.holdsEc crv.toList alg.toList w (Bytes.toNat (unhex (str raw "x_hex")))
+        (Bytes.toNat (unhex (str raw "y_hex"))) (unhex (str mem "x")) (unhex (str mem "y")) jwk thumb
+    | "okp" => Spec.C15.holdsOkp (str raw "curve").toList (unhex (str raw "x_hex")) jwk thumb
+    | _ => false
+  Json.mkObj [("holds", ok)]
+
 def opsJose : List (String × (Json → Json)) :=
   [("jwk", opJwk), ("proof", opProof), ("b64", opB64), ("b64dec", opB64Dec), ("sha256", opSha256),
-   ("jws_expect", opJwsExpect), ("sig_split", opSigSplit)]
+   ("jws_expect", opJwsExpect), ("sig_split", opSigSplit), ("c15_judge", opC15Judge)]
 
 end Drv
